@@ -39,7 +39,7 @@ POOL = [
     "myst_parser.config.main.no_such_attr", "myst_parser.__version__", "myst_parser.config.main.MdParserConfig.words_per_minute", [], ["x"], ["dollarmath"], ["dollarmath", "nope"], [1], ("a", "b"), ["{", "}"], ["ab", "c"], {"x"}, {"dollarmath"},
     {}, {"x": "y"}, {"x": 1}, {"x": None}, {1: "y"}, {"http": {"url": "u", "title": "t", "classes": ["c"]}}, {"http": {"url": 1}},
     {"http": {"classes": "abc"}}, {"http": {"classes": [1]}}, {"http": {"title": 2}}, {"http": 5}, {"http": 0}, {"http": False}, {"http": []}, {"http": 0.0}, {"k": ["u", None]}, {"k": ["u", "p"]}, {"k": ["u"]}, {"k": [1, None]},
-    {"k": ["u", 3]}, {"k": "u"},
+    {"k": ["u", 3]}, {"k": "u"}, {"k": ["u", 0]}, {"k": ["u", False]}, {"k": ["u", []]}, {"k": ["u", ""]},
 ]
 
 V, I, U = "valid", "invalid", "unspecified"
